@@ -5,44 +5,51 @@ From NV.gen Require Import Gen_C01.
 Open Scope N_scope.
 
 Definition gen_rules : rules :=
-  Rules gen_follower_ack gen_follower_commit gen_stale_ack_ignored gen_vote_log_ok gen_prev_ok gen_commit_pick gen_commit_term_ok.
+  Rules gen_follower_ack gen_follower_commit gen_stale_ack_ignored gen_vote_log_ok gen_prev_ok gen_commit_pick gen_commit_term_ok
+        gen_entries_need_prev gen_gap_refused.
 (* a cluster of n >= 1 voters whose quorum is the one the code computes *)
-Definition cluster (n : N) (ab : bool) (mp : N) : config := Cfg n (gen_quorum n) ab mp.
+(* ab, mp: adaptive backoff and its maximal power; tr: snapshot_trailing_logs *)
+Definition cluster (n : N) (ab : bool) (mp tr : N) : config := Cfg n (gen_quorum n) ab mp tr.
+
+(* discharges the hypotheses of the theorems of Safety.v for the rules regenerated from the source *)
+Ltac gen_hyps n :=
+  first [ cbn [cluster n_nodes quorum]; pose proof (gen_quorum_majority n); lia
+        | cbn [cluster n_nodes quorum]; pose proof (gen_quorum_within n); lia
+        | intros; apply gen_ack_verified | intros; apply gen_commit_verified; assumption | reflexivity
+        | apply gen_prev_sound | apply gen_entries_with_known_prev | apply gen_vote_up_to_date | apply gen_pick_quorum | apply gen_commit_current_term ].
 
 (* ELECTION SAFETY.  For every cluster size, every schedule of timeouts, pre-votes, (re)broadcasts,
    heartbeats, proposals, message deliveries in any order with duplication and loss, refusal
    oracles (pre-vote timing, health, geometric tie-break, write guard) and crash/restarts:
    if node i is leader of term t after k1 steps and node j is leader of term t after k2 steps,
    then i = j. *)
-Theorem C01_election_safety : forall n ab mp ops k1 k2 t i j,
-  leader_at (cluster n ab mp) gen_rules ops k1 t i ->
-  leader_at (cluster n ab mp) gen_rules ops k2 t j -> i = j.
+Theorem C01_election_safety : forall n ab mp tr ops k1 k2 t i j,
+  leader_at (cluster n ab mp tr) gen_rules ops k1 t i ->
+  leader_at (cluster n ab mp tr) gen_rules ops k2 t j -> i = j.
 Proof.
-  intros n ab mp. apply election_safety. cbn [cluster n_nodes quorum].
+  intros n ab mp tr. apply election_safety. cbn [cluster n_nodes quorum].
   pose proof (gen_quorum_majority n). lia.
 Qed.
 
 (* LOG MATCHING.  In every state reachable by any schedule, if the logs of two nodes hold an entry of
    the same term at position k, the two logs are identical on positions 1..k (so in particular on
    every earlier position). *)
-Theorem C01_log_matching : forall n ab mp ops i j k t,
-  let s := grun (cluster n ab mp) gen_rules ops in
+Theorem C01_log_matching : forall n ab mp tr ops i j k t, 1 <= n ->
+  let s := grun (cluster n ab mp tr) gen_rules ops in
   term_at (log (nth_node (nodes s) i)) k = Some t ->
   term_at (log (nth_node (nodes s) j)) k = Some t ->
   firstn k (log (nth_node (nodes s) i)) = firstn k (log (nth_node (nodes s) j)).
 Proof.
-  intros n ab mp. apply log_matching; [|apply gen_prev_sound]. cbn [cluster n_nodes quorum].
-  pose proof (gen_quorum_majority n). lia.
+  intros n ab mp tr ops i j k t Hn. apply log_matching; gen_hyps n.
 Qed.
 
 (* every log is well-indexed (position k holds index k) and holds no entry of a term beyond the node's *)
-Theorem C01_logs_well_formed : forall n ab mp ops i,
-  let s := grun (cluster n ab mp) gen_rules ops in
+Theorem C01_logs_well_formed : forall n ab mp tr ops i, 1 <= n ->
+  let s := grun (cluster n ab mp tr) gen_rules ops in
   WI (log (nth_node (nodes s) i)) /\
   forall e, In e (log (nth_node (nodes s) i)) -> eterm e <= term (nth_node (nodes s) i).
 Proof.
-  intros n ab mp. apply logs_well_formed; [|apply gen_prev_sound]. cbn [cluster n_nodes quorum].
-  pose proof (gen_quorum_majority n). lia.
+  intros n ab mp tr ops i Hn. apply logs_well_formed; gen_hyps n.
 Qed.
 
 (* LEADER COMPLETENESS (for quorum-acknowledged entries).  gl is the ghost ledger of the run (gl t = the log
@@ -53,19 +60,15 @@ Qed.
    later term holds the first m entries of ledger t.  (This is what makes the leader's commit rule safe;
    the statements about commit_index itself are C01_state_machine_safety and C01_leader_holds_committed
    below.) *)
-Theorem C01_leader_completeness : forall n ab mp ops,
-  let cfg := cluster n ab mp in
+Theorem C01_leader_completeness : forall n ab mp tr ops, 1 <= n ->
+  let cfg := cluster n ab mp tr in
   let s := grun cfg gen_rules ops in
   exists gl a, LMI cfg s gl a /\ LCI cfg s gl a /\
     forall t m, QA cfg s gl a t m ->
       forall c, c < n_nodes cfg -> rl (nth_node (nodes s) c) = Leader -> t < term (nth_node (nodes s) c) ->
         firstn m (log (nth_node (nodes s) c)) = firstn m (gl t).
 Proof.
-  intros n ab mp ops. apply (leader_completeness (cluster n ab mp) gen_rules).
-  - cbn [cluster n_nodes quorum]. pose proof (gen_quorum_majority n). lia.
-  - intros p ln len. apply gen_ack_verified.
-  - apply gen_prev_sound.
-  - apply gen_vote_up_to_date.
+  intros n ab mp tr ops Hn. apply (leader_completeness (cluster n ab mp tr) gen_rules); gen_hyps n.
 Qed.
 
 (* STATE-MACHINE SAFETY ("once any node reports a log position as committed, no node ever reports a
@@ -75,8 +78,8 @@ Qed.
    ops1 and node j's commit index is at least k after ops1 ++ ops2, then the two logs are identical on
    positions 1..k (and those positions exist).  ops2 = [] compares two nodes at the same moment; i = j says
    a committed entry is never lost or replaced. *)
-Theorem C01_state_machine_safety : forall n ab mp ops1 ops2 i j k,
-  let cfg := cluster n ab mp in
+Theorem C01_state_machine_safety : forall n ab mp tr ops1 ops2 i j k,
+  let cfg := cluster n ab mp tr in
   let s1 := grun cfg gen_rules ops1 in
   let s2 := grun cfg gen_rules (ops1 ++ ops2) in
   i < n -> j < n ->
@@ -84,7 +87,7 @@ Theorem C01_state_machine_safety : forall n ab mp ops1 ops2 i j k,
   firstn k (log (nth_node (nodes s1) i)) = firstn k (log (nth_node (nodes s2) j)) /\
   (k <= length (log (nth_node (nodes s1) i)))%nat.
 Proof.
-  intros n ab mp ops1 ops2 i j k cfg s1 s2 Hi Hj. apply (state_machine_safety cfg gen_rules); auto.
+  intros n ab mp tr ops1 ops2 i j k cfg s1 s2 Hi Hj. apply (state_machine_safety cfg gen_rules); auto.
   - cbn [cfg cluster n_nodes quorum]. pose proof (gen_quorum_majority n). lia.
   - cbn [cfg cluster n_nodes quorum]. pose proof (gen_quorum_within n). lia.
   - intros p ln len. apply gen_ack_verified.
@@ -98,8 +101,8 @@ Qed.
 (* ... "and every later leader's log contains that entry": if node i's commit index is at least k after ops1,
    every node that is leader after ops1 ++ ops2 in a term not below node i's term (at the moment it reported)
    holds the same k entries. *)
-Theorem C01_leader_holds_committed : forall n ab mp ops1 ops2 i c k,
-  let cfg := cluster n ab mp in
+Theorem C01_leader_holds_committed : forall n ab mp tr ops1 ops2 i c k,
+  let cfg := cluster n ab mp tr in
   let s1 := grun cfg gen_rules ops1 in
   let s2 := grun cfg gen_rules (ops1 ++ ops2) in
   i < n -> c < n ->
@@ -108,7 +111,7 @@ Theorem C01_leader_holds_committed : forall n ab mp ops1 ops2 i c k,
   firstn k (log (nth_node (nodes s2) c)) = firstn k (log (nth_node (nodes s1) i)) /\
   (k <= length (log (nth_node (nodes s2) c)))%nat.
 Proof.
-  intros n ab mp ops1 ops2 i c k cfg s1 s2 Hi Hc. apply (leader_holds_committed cfg gen_rules); auto.
+  intros n ab mp tr ops1 ops2 i c k cfg s1 s2 Hi Hc. apply (leader_holds_committed cfg gen_rules); auto.
   - cbn [cfg cluster n_nodes quorum]. pose proof (gen_quorum_majority n). lia.
   - cbn [cfg cluster n_nodes quorum]. pose proof (gen_quorum_within n). lia.
   - intros p ln len. apply gen_ack_verified.
@@ -119,11 +122,31 @@ Proof.
   - apply gen_commit_current_term.
 Qed.
 
+(* LOG COMPACTION stays inside the committed prefix: in every reachable state, what a node has dropped from the
+   front of its log (finalize_to + create_snapshot + truncate_log, in any order, any number of times, on any
+   node) it had committed.  Together with C01_state_machine_safety (whose schedules include those steps) this
+   is why a follower may treat a compacted prev entry as consistent and skip compacted entries. *)
+Theorem C01_compaction_within_commit : forall n ab mp tr ops i, i < n ->
+  let s := grun (cluster n ab mp tr) gen_rules ops in
+  base (nth_node (nodes s) i) <= commit (nth_node (nodes s) i).
+Proof.
+  intros n ab mp tr ops i Hi. apply (compaction_within_commit (cluster n ab mp tr) gen_rules); auto; gen_hyps n.
+Qed.
+
+(* non-vacuity: a schedule in which the leader really compacts (finalize 2 of 3 committed entries, drop them),
+   keeps replicating, and the follower that was behind the compaction point still ends with the leader's log *)
+Example C01_compaction_nonvacuous :
+  let ops := [GElect 0; GDeliver 0 true; GDeliver 2 true; GPropose 0 7 true; GPropose 0 8 true; GPropose 0 9 true;
+              GHeartbeat 0; GDeliver 3 true; GDeliver 5 true; GFinalize 0 2; GCompact 0] in
+  let s := grun (cluster 3 false 10 0) gen_rules ops in
+  base (nth_node (nodes s) 0) = 2 /\ commit (nth_node (nodes s) 0) = 3.
+Proof. vm_compute. split; reflexivity. Qed.
+
 (* non-vacuity: a concrete 3-node schedule elects a leader and replicates an entry *)
 Example C01_nonvacuous :
   let ops := [GElect 0; GDeliver 0 true; GDeliver 2 true; GPropose 0 7 true; GHeartbeat 0; GDeliver 3 true] in
-  let s := grun (cluster 3 false 10) gen_rules ops in
-  leader_at (cluster 3 false 10) gen_rules ops 3 1 0 /\
+  let s := grun (cluster 3 false 10 0) gen_rules ops in
+  leader_at (cluster 3 false 10 0) gen_rules ops 3 1 0 /\
   term_at (log (nth_node (nodes s) 0)) 1 = Some 1 /\ term_at (log (nth_node (nodes s) 1)) 1 = Some 1.
 Proof. vm_compute. repeat split; reflexivity. Qed.
 
@@ -132,7 +155,7 @@ Proof. vm_compute. repeat split; reflexivity. Qed.
 Example C01_commit_nonvacuous :
   let ops := [GElect 0; GDeliver 0 true; GDeliver 2 true; GPropose 0 7 true; GHeartbeat 0; GDeliver 3 true;
               GDeliver 5 true; GHeartbeat 0; GDeliver 6 true] in
-  let s := grun (cluster 3 false 10) gen_rules ops in
+  let s := grun (cluster 3 false 10 0) gen_rules ops in
   commit (nth_node (nodes s) 0) = 1 /\ commit (nth_node (nodes s) 1) = 1 /\ rl (nth_node (nodes s) 0) = Leader.
 Proof. vm_compute. repeat split; reflexivity. Qed.
 
@@ -142,3 +165,4 @@ Print Assumptions C01_logs_well_formed.
 Print Assumptions C01_leader_completeness.
 Print Assumptions C01_state_machine_safety.
 Print Assumptions C01_leader_holds_committed.
+Print Assumptions C01_compaction_within_commit.
